@@ -67,7 +67,7 @@ PROPS = {
                     "fake algorithm / early-stopping / DB-manager services", "typed reads inside a reconcile come from a snapshot (informer cache), run objects are read live"],
         "modelled": ["ReconcileExperiment.Reconcile / ReconcileSuggestion.Reconcile / ReconcileTrial.Reconcile and helpers as Katib.Ctl.expPlan / sugPlan / trialPlan",
                      "API-server semantics as Katib.Ctl.applyCall", "the op/step state machine Katib.Ctl.step"],
-        "level_text": 'C04_quiescent_verdict_partial: for every store (not only reachable ones) in which none of the three controllers has a write to issue on live reads, every run object has finished, collected metrics are stored and parse, the algorithm Deployment is ready and no Trial is early-stopped without an objective value, an Experiment with maxTrialCount carries a verdict (assumed store facts listed in the theorem: unique Trial keys, suggestionCount = |assignments|, unique assignment names, Suggestion of an unfinished Experiment not Succeeded, MetricsUnavailable Trials not Running, zero counters without Trials); no-hot-loop statements C04_no_noop_*; C04_wedge_counterexample for the excluded region; correspondence on generated schedules with fault-free settling and a quiescence probe; oracle demands a verdict at observed quiescence; C04_quiescent_verdict_on_schedules_resume: for an Experiment created with resume policy Never or LongRunning and an unedited maxTrialCount >= 1, on every schedule without Trial deletions, the property's own hypotheses (no controller writes any more, no job running, metrics of successful jobs in, Deployment ready, no early-stopped Trial without observation) imply a verdict; nothing else is assumed about the reached store (uses C01_total, C06_permanent, C06_unavailable_not_running, C08_names_unique_world, C04_zero_counters_without_trials, C16_longrunning_service_kept, C16_succeeded_only_after_verdict, C03_frozen_verdict_world); under FromVolume one store fact stays assumed (the Suggestion is not Succeeded)',
+        "level_text": 'C04_quiescent_verdict_partial: for every store (not only reachable ones) in which none of the three controllers has a write to issue on live reads, every run object has finished, collected metrics are stored and parse, the algorithm Deployment is ready and no Trial is early-stopped without an objective value, an Experiment with maxTrialCount carries a verdict (assumed store facts listed in the theorem: unique Trial keys, suggestionCount = |assignments|, unique assignment names, Suggestion of an unfinished Experiment not Succeeded, MetricsUnavailable Trials not Running, zero counters without Trials); no-hot-loop statements C04_no_noop_*; C04_wedge_counterexample for the excluded region; correspondence on generated schedules with fault-free settling and a quiescence probe; oracle demands a verdict at observed quiescence; C04_quiescent_verdict_on_schedules_resume: for an Experiment created with resume policy Never or LongRunning and an unedited maxTrialCount >= 1, on every schedule without Trial deletions, the hypotheses of the property itself (no controller writes any more, no job running, metrics of successful jobs in, Deployment ready, no early-stopped Trial without observation) imply a verdict; nothing else is assumed about the reached store (uses C01_total, C06_permanent, C06_unavailable_not_running, C08_names_unique_world, C04_zero_counters_without_trials, C16_longrunning_service_kept, C16_succeeded_only_after_verdict, C03_frozen_verdict_world); under FromVolume one store fact stays assumed (the Suggestion is not Succeeded)',
         "level_note": "trusted: Lean kernel; harness/check; fake client as API server; views monotone per kind; the tie between Lean model and Go controllers is differential (sampling)",
         "assumptions": ["informer caches are monotone per kind", "run objects are removed by others only after their Trial completed", "algorithm service returns fresh names"],
     },
